@@ -186,7 +186,61 @@ func CondFact(v ssa.Value, truth bool) Fact {
 			return Fact{Op: op, X: b.X, Y: b.Y}
 		}
 	}
+	// a call of a pure, straight-line predicate helper of the repository ("func isBinaryKey(k string) bool {
+	// return strings.HasSuffix(k, "-bin") }") stands for the expression it returns; the fact's operands are
+	// then values of the helper (its parameters stand for the call's arguments)
+	if call, ok := v.(*ssa.Call); ok {
+		if rv := PurePredicateResult(call); rv != nil {
+			return CondFact(rv, truth)
+		}
+	}
 	return Fact{Op: token.ILLEGAL, X: v, Neg: !truth}
+}
+
+// PurePredicateResult returns the value a call of a pure single-block bool
+// function of the module returns, or nil.
+func PurePredicateResult(call *ssa.Call) ssa.Value {
+	fn := call.Call.StaticCallee()
+	if fn == nil || fn.Blocks == nil || len(fn.Blocks) != 1 || fn.Pkg == nil || !strings.HasPrefix(fn.Pkg.Pkg.Path(), ModulePath) {
+		return nil
+	}
+	if fn.Signature.Results().Len() != 1 {
+		return nil
+	}
+	if b, ok := fn.Signature.Results().At(0).Type().Underlying().(*types.Basic); !ok || b.Kind() != types.Bool {
+		return nil
+	}
+	var ret *ssa.Return
+	for _, in := range fn.Blocks[0].Instrs {
+		switch x := in.(type) {
+		case *ssa.Return:
+			ret = x
+		case *ssa.DebugRef, *ssa.BinOp, *ssa.Convert, *ssa.ChangeType, *ssa.Extract, *ssa.Lookup, *ssa.Field, *ssa.FieldAddr, *ssa.Index, *ssa.IndexAddr, *ssa.Slice, *ssa.TypeAssert, *ssa.MakeInterface:
+		case *ssa.UnOp:
+			if x.Op == token.ARROW {
+				return nil
+			}
+		case *ssa.Call:
+			if _, isB := x.Call.Value.(*ssa.Builtin); isB {
+				continue
+			}
+			callee := x.Call.StaticCallee()
+			if callee == nil || callee.Pkg == nil {
+				return nil
+			}
+			switch callee.Pkg.Pkg.Path() {
+			case "strings", "bytes", "unicode", "unicode/utf8", "path":
+			default:
+				return nil
+			}
+		default:
+			return nil
+		}
+	}
+	if ret == nil || len(ret.Results) != 1 {
+		return nil
+	}
+	return ret.Results[0]
 }
 
 // EdgeFacts lists, for every If in fn, the facts on both outgoing edges.
